@@ -126,7 +126,14 @@ func (om *OriginMap) Of(e ast.Expr) (Origin, bool) {
 		// method call on a derived value, or conversion of a derived value
 		if se, ok := ast.Unparen(x.Fun).(*ast.SelectorExpr); ok {
 			if sel := om.Info.Selections[se]; sel != nil && sel.Kind() == types.MethodVal {
-				return om.Of(se.X)
+				// a projection of the value (String(), Equals ...): only results of
+				// basic type keep the origin; Clone() and friends do not
+				if t := om.Info.TypeOf(x); t != nil {
+					if _, isBasic := t.Underlying().(*types.Basic); isBasic {
+						return om.Of(se.X)
+					}
+				}
+				return Origin{}, false
 			}
 		}
 		if tv, ok := om.Info.Types[x.Fun]; ok && tv.IsType() && len(x.Args) == 1 {
